@@ -1,9 +1,5 @@
-mod engine;
-mod gen;
-mod props;
-mod refimpl;
-
-use engine::{runner, worker, Property, Tier};
+use vcheck::engine::{self, runner, worker, Property, Tier};
+use vcheck::{props, refimpl};
 
 #[global_allocator]
 static ALLOC: engine::alloc::Counting = engine::alloc::Counting;
